@@ -2102,16 +2102,55 @@ def preprocess_file(
         else:
             return line_res
 
+    class FuncMacro:
+        """Expansion of a function-like macro: every call NAME(arg, ...) whose
+        parentheses balance on the line and whose number of top-level arguments
+        equals the number of parameters is replaced by the body with the
+        parameters substituted. One left-to-right scan per line."""
+
+        def __init__(self, def_name: str, def_value: tuple[str, str]):
+            def_args, self.body = def_value
+            self.params = [arg.strip() for arg in def_args.split(",")]
+            self.call = re.compile(rf"\b{def_name}\s*\(")
+            names = "|".join(re.escape(p) for p in self.params if p)
+            self.param_regex = re.compile(rf"\b(?:{names})\b") if names else None
+
+        def subn(self, _value, line: str) -> tuple[str, int]:
+            out, pos, nsubs = [], 0, 0
+            while True:
+                match = self.call.search(line, pos)
+                if match is None:
+                    break
+                depth, args, arg_start, i = 1, [], match.end(), match.end()
+                while i < len(line) and depth > 0:
+                    char = line[i]
+                    if char == "(":
+                        depth += 1
+                    elif char == ")":
+                        depth -= 1
+                    elif char == "," and depth == 1:
+                        args.append(line[arg_start:i])
+                        arg_start = i + 1
+                    i += 1
+                if depth > 0:
+                    break  # call not closed on this line
+                args.append(line[arg_start : i - 1])
+                if len(args) != len(self.params):
+                    out.append(line[pos:i])
+                    pos = i
+                    continue
+                values = dict(zip(self.params, args))
+                body = self.body
+                if self.param_regex is not None:
+                    body = self.param_regex.sub(lambda m: values[m.group(0)], body)
+                out.append(line[pos : match.start()] + body)
+                pos = i
+                nsubs += 1
+            out.append(line[pos:])
+            return "".join(out), nsubs
+
     def expand_func_macro(def_name: str, def_value: tuple[str, str]):
-        def_args, sub = def_value
-        def_args = def_args.split(",")
-        sub = sub.replace("\\", "\\\\")  # the body is literal text, not a re template
-        regex = re.compile(rf"\b{def_name}\s*\({','.join(['(.*)']*len(def_args))}\)")
-
-        for i, arg in enumerate(def_args, start=1):
-            sub = re.sub(rf"\b({arg.strip()})\b", rf"\\{i}", sub)
-
-        return regex, sub
+        return FuncMacro(def_name, def_value)
 
     def append_multiline_macro(def_value: str | tuple, line: str):
         if isinstance(def_value, tuple):
@@ -2327,9 +2366,7 @@ def preprocess_file(
             else:
                 def_regex = cached[1]
 
-            if isinstance(def_regex, tuple):
-                def_regex, value = def_regex
-            else:
+            if not isinstance(value, tuple):
                 value = value.replace("\\", "\\\\")  # literal text, not a re template
 
             line_new, nsubs = def_regex.subn(value, line)
